@@ -20,7 +20,7 @@ from concurrent.futures import ThreadPoolExecutor
 ROOT = os.path.dirname(os.path.dirname(os.path.abspath(__file__)))
 COQ = os.path.join(ROOT, 'coq')
 BUILD = os.path.join(ROOT, 'ocaml', 'build')
-REPO = '/repo'
+REPO = os.environ.get('VERIF_REPO', '/repo')   # development-time override: a scratch copy carrying a mutant
 NCPU = min(16, os.cpu_count() or 4)
 Fraction = fractions.Fraction
 
@@ -105,11 +105,15 @@ def coq_makefile():
 
 
 def coq_make(targets=None, jobs=NCPU, timeout=3000):
-    """full .vo build (never -vos) of the given targets (paths relative to coq/), or everything"""
-    coq_makefile()
+    """full .vo build (never -vos) of the given targets (paths relative to coq/), or everything.
+    Serialised by a lock file so that concurrent checks do not race on the Makefile or on .vo files."""
+    import fcntl
     os.makedirs(os.path.join(COQ, 'extracted'), exist_ok=True)
-    tg = ' '.join(targets) if targets else ''
-    rc, out = sh(f'timeout {timeout} make -j{jobs} {tg}', cwd=COQ, timeout=timeout + 60)
+    with open(os.path.join(COQ, '.build.lock'), 'w') as lk:
+        fcntl.flock(lk, fcntl.LOCK_EX)
+        coq_makefile()
+        tg = ' '.join(targets) if targets else ''
+        rc, out = sh(f'timeout {timeout} make -j{jobs} {tg}', cwd=COQ, timeout=timeout + 60)
     return rc, out
 
 
@@ -357,10 +361,11 @@ def kexact(coeffs):
 # evidence, findings, replays
 # --------------------------------------------------------------------------------------
 def load_known():
+    out = []
     p = os.path.join(ROOT, 'known_findings.json')
-    if not os.path.exists(p):
-        return []
-    return json.load(open(p)).get('findings', [])
+    if os.path.exists(p):
+        out += json.load(open(p)).get('findings', [])
+    return out
 
 
 def case_hash(case):
